@@ -29,6 +29,9 @@ def gen_world(rng, i, tier):
             read["etc"] = rng.pick([None, ""])
             w["nodes"] = [n for n in w["nodes"] if not n["p"].startswith("$ROOT/e")]
         read["name"] = rng.pick(["lesimapp", "ls.app"]) if (not read.get("usr") or not read.get("etc")) else read["name"]
+        if w["cfg"].get("cwd") == "$ROOT/trap":
+            # the trap in the working directory follows the name
+            w["nodes"] = [n for n in w["nodes"] if not n["p"].startswith("$ROOT/trap/")] + gen.trap_nodes(read)
         if not read.get("usr") or not read.get("etc"):
             # the tree was generated for another name: regenerate file names is not needed, the remaining layer just has no match
             pass
